@@ -155,6 +155,19 @@ impl BlteHeader {
             return Err(BlteError::InvalidChunkCount(chunks.len() as u32));
         }
 
+        // The chunk table stores both sizes as u32; a larger chunk cannot be
+        // described truthfully
+        for chunk in chunks {
+            let size = chunk.compressed_size().max(chunk.decompressed_size());
+            if size > u32::MAX as usize {
+                return Err(BlteError::InvalidChunkSize {
+                    size,
+                    min: 1,
+                    max: u32::MAX as usize,
+                });
+            }
+        }
+
         let chunk_infos: Vec<ChunkInfo> = if flags == HeaderFlags::Extended {
             chunks
                 .iter()
